@@ -198,7 +198,7 @@ def coq_decls(decls, sig, input_vars, exposed):
     for d in decls:
         if d[0] == "in":
             ty = "None" if d[2] is None else f"(Some {sig.p(d[2])})"
-            if d[1] in exposed:
+            if d[1] in exposed or d[1].startswith("_m"):  # state variables of memory cells are always free
                 out.append(f"(DIn {ty} {input_vars[d[1]]}%positive)")
             else:
                 out.append(f"(DSig (ELit {ty} (EInt {zc(d[3])})))")
